@@ -293,3 +293,238 @@ func init() {
 		return p
 	}
 }
+
+// ---- record contents (C04, C13) ----
+
+// payloadShapes returns arbitrary record values. $ID/$TOKEN are replaced at action time by
+// the id/token of the live record, $SELF by the id of the action's instance.
+func payloadShapes(r *Rng) []byte {
+	long := make([]byte, 0, 1<<20)
+	shapes := []func() []byte{
+		func() []byte { return []byte{} },
+		func() []byte { return []byte("x") },
+		func() []byte { return []byte("{") },
+		func() []byte { return []byte(`{"id":"$ID","token":"$TOK`) }, // truncated
+		func() []byte { return []byte("null") },
+		func() []byte { return []byte("[]") },
+		func() []byte { return []byte("123") },
+		func() []byte { return []byte(`"just a string"`) },
+		func() []byte { return []byte(`{}`) },
+		func() []byte { return []byte(`{"id":1,"token":2}`) },
+		func() []byte { return []byte(`{"id":null,"token":null}`) },
+		func() []byte { return []byte(`{"id":"$ID"}`) },
+		func() []byte { return []byte(`{"token":"$TOKEN"}`) },
+		func() []byte { return []byte(`{"id":["$ID"],"token":{"v":"$TOKEN"}}`) },
+		func() []byte { return []byte(`{"id":true,"token":"$TOKEN"}`) },
+		func() []byte { return []byte(`{"id":"$ID","token":false}`) },
+		func() []byte { return []byte(`{"ID":"$ID","TOKEN":"$TOKEN"}`) },
+		func() []byte { return []byte(`{"Id":"$ID","Token":"$TOKEN","Priority":9}`) },
+		func() []byte { return []byte(`{"id":"zzz","id":"$ID","token":"$TOKEN"}`) },
+		func() []byte { return []byte(`{"id":"$ID","token":"x","token":"$TOKEN"}`) },
+		func() []byte { return []byte(`{"id":"$ID","token":"$TOKEN","priority":"high"}`) },
+		func() []byte { return []byte(`{"id":"$ID","token":"$TOKEN","priority":-5}`) },
+		func() []byte { return []byte(`{"id":"$ID","token":"$TOKEN","priority":99999999999999999999}`) },
+		func() []byte { return []byte(`{"id":"","token":""}`) },
+		func() []byte { return []byte(`{"id":"$ID","token":""}`) },
+		func() []byte { return []byte(`{"id":"$ID","token":"$TOKEN"}`) },                // same as live (new revision)
+		func() []byte { return []byte(`{"id":"$SELF","token":"00000000-0000-4000-8000-00000000abcd"}`) }, // own id, other token
+		func() []byte { return []byte(`{"id":"intruder","token":"$TOKEN","priority":3}`) }, // other id, live token
+		func() []byte { return []byte(`{"id":"intruder","token":"00000000-0000-4000-8000-000000000001","priority":7}`) },
+		func() []byte { return []byte(`{"id":"intruder","token":"00000000-0000-4000-8000-000000000002"}`) },
+		func() []byte { return []byte(" \n\t") },
+		func() []byte { return []byte{0xff, 0xfe, 0x00, 0x01} },
+		func() []byte { return []byte(`{"id":"\ud800","token":"\u0000"}`) },
+		func() []byte { // deeply nested
+			n := 12000
+			b := make([]byte, 0, 2*n)
+			for i := 0; i < n; i++ {
+				b = append(b, '[')
+			}
+			for i := 0; i < n; i++ {
+				b = append(b, ']')
+			}
+			return b
+		},
+		func() []byte { // very large
+			long = append(long, []byte(`{"id":"$ID","token":"$TOKEN","pad":"`)...)
+			for len(long) < 1<<20 {
+				long = append(long, 'a')
+			}
+			return append(long, '"', '}')
+		},
+		func() []byte { // random bytes
+			b := make([]byte, 1+r.Intn(40))
+			for i := range b {
+				b[i] = byte(r.U64())
+			}
+			return b
+		},
+	}
+	return Pick(r, shapes)()
+}
+
+func init() {
+	// C13: arbitrary record contents and outside interference.
+	families["c13"] = func(r *Rng) *Plan {
+		p := &Plan{Judge: []string{"C13"}}
+		baseTiming(r, p, hLattice[:5])
+		n := 1 + r.Intn(4)
+		p.Insts = mkInsts(r, n, 1)
+		for i := range p.Insts {
+			c := &p.Insts[i]
+			c.V = Pick(r, []time.Duration{0, p.H, 2 * p.H})
+			if r.Bool(0.6) {
+				c.Prio = Pick(r, []int{1, 2, 3, 5})
+				c.Takeover = r.Bool(0.8)
+			}
+			p.Actions = append(p.Actions, Action{At: r.Dur(0, 2*p.H), Kind: AStart, Inst: i})
+		}
+		p.Store = healthyStore(r, Pick(r, []time.Duration{p.H / 2, p.H / 2, p.H}))
+		p.Until = r.Dur(4*p.TTL, 10*p.TTL) + 2*sec
+		// the outsider may write before anybody started (followers/candidates meet odd bytes first)
+		m := 1 + r.Intn(6)
+		for k := 0; k < m; k++ {
+			t := r.Dur(0, p.Until)
+			if k == 0 && r.Bool(0.3) {
+				t = 0
+			}
+			if r.Bool(0.2) {
+				p.Actions = append(p.Actions, Action{At: t, Kind: AOutDelete, Key: "g1"})
+			} else {
+				p.Actions = append(p.Actions, Action{At: t, Kind: AOutPut, Key: "g1", Value: payloadShapes(r), Inst: r.Intn(n)})
+			}
+		}
+		p.Tail = 0
+		p.Sched = SchedCfg{YieldProb: Pick(r, []float64{0, 0.2}), StallMax: 0}
+		return p
+	}
+
+	// C04: validation calls racing with changes of ownership, odd payloads, faults on the read
+	// and context deadlines.
+	families["c04"] = func(r *Rng) *Plan {
+		p := &Plan{Judge: []string{"C04"}}
+		baseTiming(r, p, hLattice[:5])
+		n := 1 + r.Intn(3)
+		p.Insts = mkInsts(r, n, 1)
+		for i := range p.Insts {
+			c := &p.Insts[i]
+			c.V = Pick(r, []time.Duration{0, 0, p.H, 3 * p.H})
+			if r.Bool(0.4) {
+				c.Prio = Pick(r, []int{1, 2, 3, 5})
+				c.Takeover = r.Bool(0.8)
+			}
+			p.Actions = append(p.Actions, Action{At: r.Dur(0, 2*p.H), Kind: AStart, Inst: i})
+		}
+		lat := Pick(r, []time.Duration{p.H / 2, p.H, 2 * sec})
+		p.Store = healthyStore(r, lat)
+		p.Until = r.Dur(3*p.TTL, 8*p.TTL) + 2*sec
+		// validation calls
+		nv := 3 + r.Intn(12)
+		for k := 0; k < nv; k++ {
+			a := Action{At: r.Dur(0, p.Until), Kind: Pick(r, []string{AValidate, AValidateOD}), Inst: r.Intn(n)}
+			switch r.Intn(5) {
+			case 0:
+				a.CtxCancelled = true
+			case 1:
+				a.CtxTimeout = r.Dur(1, lat) // may expire before/at/after the response
+			case 2:
+				a.CtxTimeout = lat + r.Dur(0, lat)
+			}
+			p.Actions = append(p.Actions, a)
+		}
+		// adversary
+		m := r.Intn(5)
+		for k := 0; k < m; k++ {
+			t := r.Dur(0, p.Until)
+			switch r.Intn(4) {
+			case 0:
+				p.Actions = append(p.Actions, Action{At: t, Kind: AOutDelete, Key: "g1"})
+			case 1:
+				p.Actions = append(p.Actions, Action{At: t, Kind: AExpire, Key: "g1"})
+			default:
+				p.Actions = append(p.Actions, Action{At: t, Kind: AOutPut, Key: "g1", Value: payloadShapes(r), Inst: r.Intn(n)})
+			}
+		}
+		// faults on reads
+		if r.Bool(0.5) {
+			from := r.Dur(0, p.Until)
+			f := Fault{Inst: -1, Op: "get", From: from, To: from + r.Dur(p.H, 2*p.TTL), Prob: 0.6}
+			switch r.Intn(4) {
+			case 0:
+				f.Kind, f.Err = FError, Pick(r, []string{"timeout", "noresponders", "closed", "permission"})
+			case 1:
+				f.Kind = FHang
+			case 2:
+				f.Kind = FDropResp
+			default:
+				f.Kind, f.Arg = FSlow, r.Dur(lat, 3*lat)
+			}
+			p.Faults = append(p.Faults, f)
+		}
+		p.Tail = 0
+		p.Sched = SchedCfg{YieldProb: Pick(r, []float64{0, 0.2}), StallMax: 0}
+		return p
+	}
+}
+
+func init() {
+	// C11: connection notifications (flapping, timing lattice around the grace period), with or
+	// without a matching store partition, ownership changes during the outage, and stops.
+	families["c11"] = func(r *Rng) *Plan {
+		p := &Plan{Judge: []string{"C11"}}
+		p.H = Pick(r, []time.Duration{100 * ms, 200 * ms, 500 * ms, 1 * sec, 2 * sec})
+		p.TTL = Pick(r, []time.Duration{3 * p.H, 5 * p.H, 10 * p.H, 30 * p.H})
+		n := 1 + r.Intn(2)
+		p.Insts = mkInsts(r, n, 1)
+		for i := range p.Insts {
+			c := &p.Insts[i]
+			c.Monitor = true
+			c.Grace = Pick(r, []time.Duration{0, 2 * p.H, 2*p.H + 1, 3 * p.H, 10 * p.H})
+			c.V = Pick(r, []time.Duration{0, 0, 2 * p.H})
+			c.DemoteDur = Pick(r, []time.Duration{0, 0, 10 * ms})
+			p.Actions = append(p.Actions, Action{At: time.Duration(i) * r.Dur(0, 50*ms), Kind: AStart, Inst: i})
+		}
+		p.Store = healthyStore(r, Pick(r, []time.Duration{p.H / 2, p.H / 10}))
+		G := graceOf(p, p.Insts[0])
+		t := r.Dur(2*p.H, 6*p.H)
+		m := 1 + r.Intn(8)
+		partitioned := false
+		for k := 0; k < m; k++ {
+			kind := Pick(r, []string{ADisconnect, ADisconnect, AReconnect, AReconnect, AClosed})
+			p.Actions = append(p.Actions, Action{At: t, Kind: kind, Inst: 0})
+			if kind == ADisconnect && r.Bool(0.4) && !partitioned {
+				to := t + Pick(r, []time.Duration{G / 2, G, 2 * G})
+				p.Faults = append(p.Faults, Fault{Kind: FPartition, Inst: 0, From: t, To: to})
+				partitioned = true
+			}
+			if r.Bool(0.25) { // ownership changes during the outage
+				at := t + r.Dur(0, G)
+				switch r.Intn(3) {
+				case 0:
+					p.Actions = append(p.Actions, Action{At: at, Kind: AOutDelete, Key: "g1"})
+				case 1:
+					p.Actions = append(p.Actions, Action{At: at, Kind: AOutPut, Key: "g1", Value: []byte(`{"id":"intruder","token":"00000000-0000-4000-8000-000000000001","priority":7}`)})
+				default:
+					p.Actions = append(p.Actions, Action{At: at, Kind: AExpire, Key: "g1"})
+				}
+			}
+			// gaps on a lattice around the grace period
+			t += Pick(r, []time.Duration{G - 1, G, G + 1, G / 2, G / 10, 2 * G, r.Dur(1, 2*G), 100*ms - 1, 100 * ms, 100*ms + 1})
+		}
+		if r.Bool(0.4) {
+			a := Action{At: r.Dur(2*p.H, t+G), Kind: Pick(r, []string{AStop, AStopCtx}), Inst: 0}
+			if r.Bool(0.3) { // exactly at a grace expiry
+				a.At = p.Actions[n].At + G
+			}
+			if a.Kind == AStopCtx {
+				a.DeleteKey = r.Bool(0.5)
+				a.WaitForDemote = r.Bool(0.5)
+			}
+			p.Actions = append(p.Actions, a)
+		}
+		p.Until = t + 2*G + 3*sec
+		p.Tail = 0
+		p.Sched = SchedCfg{YieldProb: Pick(r, []float64{0, 0.3}), StallMax: 0}
+		return p
+	}
+}
